@@ -1,5 +1,5 @@
 """C18: the command-line tool mirrors the library."""
-import itertools, json, os, random
+import itertools, json, os, random, re
 from .core import F, casehash, sh, BUILD, REPO, GOENV, VERIF, WORK
 
 PROGS = {
@@ -110,6 +110,19 @@ def check_C18(ctx):
         if line.startswith("{"):
             r = json.loads(line)
             res[r["id"]] = r
+    # the model of main.run (Model/CliRun.v) on the same argv, standard input and files
+    def target_kind(c):
+        bf = (c["flags"] or {}).get("bdumpfile", "") if isinstance(c.get("flags"), dict) else ""
+        if bf == "/dev/full":
+            return "w"
+        if bf == "." or bf.startswith("/nonexistent"):
+            return "c"
+        return "o"
+    mrun = ctx.model([("clirun", "run/" + c["id"],
+                       F(F(*[a.encode("utf8") for a in c["argv"]]), bytes.fromhex(c["stdin_hex"]),
+                         F(*[x for k, v in sorted(c["files"].items()) for x in (k.encode("utf8"), bytes.fromhex(v))]), target_kind(c)))
+                      for c in cases])
+    nmodel = 0
     stats = {}
     dumps = {}
     for c in cases:
@@ -136,6 +149,38 @@ def check_C18(ctx):
             if real["status"] != 0 or not bytes.fromhex(real["stdout"]).startswith(b"usage: bcl"):
                 ctx.violation("-h must print the usage line and exit 0", case, impl=real, theorem="C18_exit_codes", key="help")
             continue
+        # against the model: exit status, stdout up to the -r lines, the file written, error or not
+        mr = dict(kv.split("=", 1) for kv in (mrun.get("run/" + c["id"]) or "").split(" ") if "=" in kv)
+        if mr and mr.get("err") != "MODEL" and "stdout" in mr:
+            nmodel += 1
+            # introspection text is compared modulo the amount of horizontal white space (column widths are not a property;
+            # the exact bytes are compared with the library called in process below)
+            norm = lambda b: re.sub(rb"[ \t]+", b" ", b)
+            want_out = norm(bytes.fromhex(mr["stdout"]))
+            got_out = norm(bytes.fromhex(real["stdout"]))
+            rest = got_out[len(want_out):] if got_out.startswith(want_out) else None
+            bad = []
+            if str(real["status"]) != mr["status"]:
+                bad.append("status")
+            if rest is None or (mr["r"] == "1") != rest.startswith(b"result: ") or (mr["r"] == "0" and rest != b""):
+                bad.append("stdout")
+            newfiles = {k: v for k, v in real["files"].items() if c["files"].get(k) != v}
+            if mr["written"] == "-":
+                if newfiles and target_kind(c) == "o":
+                    bad.append("files")
+            else:
+                wn, _, wc = mr["written"].partition(":")
+                if newfiles.get(bytes.fromhex(wn).decode("utf8", "replace")) != wc:
+                    bad.append("files")
+            if (mr["err"] != "none") != bool(real["stderr"]) and not (mr["err"] == "none" and b"WARNING" in bytes.fromhex(real["stderr"])):
+                bad.append("stderr")
+            if bad:
+                ctx.violation("the tool differs from the model of main.run (Model/CliRun.v) on: %s" % ",".join(bad), case,
+                              impl=dict(status=real["status"], stdout=got_out.decode("utf8", "replace")[:600],
+                                        stderr=bytes.fromhex(real["stderr"]).decode("utf8", "replace")[:400], files=sorted(newfiles)),
+                              model={k: (v[:300]) for k, v in mr.items()}, theorem="C18_run_model", key="cli-model:" + bad[0])
+        elif mr.get("err") == "MODEL":
+            ctx.broken.append(("correspondence", "Model/CliRun.v gave up on a case", "argv %r" % (c["argv"],)))
         same = (real["status"] == mir["status"] and real["stdout"] == mir["stdout"] and real["stderr"] == mir["stderr"]
                 and real["files"] == mir["files"])
         if not same:
@@ -184,6 +229,7 @@ def check_C18(ctx):
                                             stderr=bytes.fromhex(got["stderr"]).decode("utf8", "replace")[:500]),
                                   model=dict(status=real["status"], stdout=bytes.fromhex(real["stdout"]).decode("utf8", "replace")[:500]),
                                   theorem="C18_bdump_bload", key="bdump-bload")
+    ctx.suite_stats["cli_model"] = dict(cases_compared_with_the_model_of_main_run=nmodel)
     ctx.suite_stats["cli"] = dict(cases=len(cases), statuses={str(k): v for k, v in stats.items()}, bdump_bload=len(bl))
     ctx.traces = len(cases)
     for c in cases[:3]:
